@@ -1101,6 +1101,15 @@ class FnEmitter:
                     raise Undecided('lost anchor in %s: contract section [%s] but the source has %d fold(..) calls of the R13 shape' % (key, sname, nfold))
 
         loops = loop_heads(toks, bopen + 1, bclose)
+        # R18: the short plain string literals of the body are REVEALED (a string literal is opaque to the verifier until
+        # `reveal_strlit` states its characters) at the start of the body and of every loop body, so that what a literal IS does
+        # not depend on a contract having revealed that very literal (`long_line += " "` for `long_line.push(' ')`, 8.52)
+        lits = []
+        for t in toks[bopen + 1:bclose]:
+            if t.kind == 'str' and t.text.startswith('"') and t.text.endswith('"') and len(t.text) <= 18 \
+                    and '\\' not in t.text and '{' not in t.text and '}' not in t.text and '\n' not in t.text and t.text not in lits:
+                lits.append(t.text)
+        strlit_reveal = ('proof { %s }' % ' '.join('reveal_strlit(%s);' % l for l in lits[:12])) if lits else ''
         if not isolated and loops:
             self.info.setdefault('non_isolated', []).append(key)
         if con.expect_loops is not None and con.expect_loops != len(loops):
@@ -1194,6 +1203,8 @@ class FnEmitter:
             if inv:
                 edits.append((opn.start, opn.start, ('\n', inv, ''), 'block'))
             nested = any(toks[o['open_idx']].start < toks[lp['kw_idx']].start < toks[o['close_idx']].start for o in loops if o is not lp)
+            if strlit_reveal:
+                edits.append((opn.end, opn.end, ('\n', [(strlit_reveal, {'k': 'gen', 'fn': key})], ''), 'block2'))
             if (self.canary == 'A' and isolated) or (self.canary == 'B' and not isolated and not nested):
                 edits.append((opn.end, opn.end, ('\n', [('assert(false); // CANARY', {'k': 'canary', 'fn': key, 'where': 'loop%d' % li})], ''), 'block2'))
             for a in aliases[li]:
@@ -1211,6 +1222,8 @@ class FnEmitter:
                 if af:
                     edits.append((cls.end, cls.end, ('\n', af, ''), 'block2'))
 
+        if strlit_reveal:
+            edits.append((toks[bopen].end, toks[bopen].end, ('\n', [(strlit_reveal, {'k': 'gen', 'fn': key})], ''), 'block2'))
         if self.canary == 'A':
             edits.append((toks[bopen].end, toks[bopen].end, ('\n', [('assert(false); // CANARY', {'k': 'canary', 'fn': key, 'where': 'body'})], ''), 'block2'))
         rt = block_text('at returns')
